@@ -97,6 +97,19 @@ example :
       (planAll s.kmerge s.index).length = 1 ∧ nextOffset (s.index.map (·.1)) 1 = 0 := by
   decide
 
+/-- The planner merges only what the index lists: for EVERY index and fan-in, every input of
+every plan is an index entry of the plan's source level whose type list contains the plan's type.
+(So a batch never reads a directory for a type the index does not list there, and never mixes
+levels; which rows the batch then carries over is `C05_batch_no_loss_partial`.) -/
+theorem C05_plan_inputs_are_listed (k : Nat) (index : List (Nat × List Nat)) :
+    ∀ p ∈ planAll k index, ∀ l ∈ p.inputs,
+      ∃ ent ∈ index, ent.1 = l ∧ l / levelSpan = p.level ∧ p.ty ∈ ent.2 := by
+  rw [planAll_eq]; exact planAcc_from k index
+
+/-- Non-vacuity: a two-level, two-type index with fan-in 2 yields three plans. -/
+example : (planAll 2 [(0, [0, 1]), (1, [0]), (2, [1]), (10000, [0]), (10001, [0])]).map (fun p => (p.level, p.ty, p.inputs))
+    = [(0, 0, [0, 1]), (0, 1, [0, 2]), (1, 0, [10000, 10001])] := by decide
+
 /-- Without the bound the statement is FALSE of the planner as modelled — and of the real one
 (`plan` stream, witness case 0): with labels 0, 1, 19999, 20000 and fan-in 2 the level-0 merge is
 given output id `1·10000 + (9999 + 1) = 20000`, the id of an existing level-2 segment
